@@ -2,7 +2,7 @@
 From Coq Require Import ZArith QArith Qcanon List Bool Permutation.
 Require Import QV.C02.Spec QV.C02.Model QV.C02.Proofs QV.C02.Proofs2 QV.C02.Proofs3.
 Require Import QV.C02.Stack QV.C02.ProofsStack QV.C02.Merge QV.C02.ProofsMerge QV.C02.Rewrite QV.C02.ProofsRw QV.C02.ProofsAccept.
-Require Import QV.C02.Flatten QV.C02.ProofsFlat QV.C02.Vol QV.C02.ProofsVol.
+Require Import QV.C02.Flatten QV.C02.ProofsFlat QV.C02.Vol QV.C02.ProofsVol QV.C02.Params QV.C02.ProofsParams.
 Import ListNotations.
 Open Scope Qc_scope.
 
@@ -305,6 +305,21 @@ Proof. exact vwok_nonvacuous. Qed.
 Theorem C02_volatile_guard_needed : exists a b, vwok a b = false /\ vwin a b <> loop_windows (zip_rep a b).
 Proof. eexists. eexists. exact vwok_guard_needed. Qed.
 Print Assumptions C02_volatile_guard_needed.
+
+(* ---- round 3: the declared parameters suffice ------------------------------------------------------------------------------ *)
+(* Params.params p = PulseTemplate.parameter_names (compared with the code's answer in every CMissing case).  Two
+   assignments that agree on them give the same "plays", duration, denoted windows and the same program: the value (or
+   absence) of any other parameter never matters, and a ParameterNotProvidedException is legitimate only if a declared
+   parameter is missing (check_spec of the CMissing cases). *)
+Theorem C02_declared_parameters_suffice : forall p en en',
+  (forall x, In x (params p) -> en x = en' x) -> forall mm,
+  plays p en = plays p en' /\ tdur p en = tdur p en' /\ denote p en mm = denote p en' mm /\
+  to_program (build p en mm fresh) = to_program (build p en' mm fresh).
+Proof.
+  intros p en en' H mm. destruct (params_suffice p en en' H) as (A & B & _ & D & E & _).
+  repeat split; auto. now rewrite E.
+Qed.
+Print Assumptions C02_declared_parameters_suffice.
 
 (* non-vacuity: a reversed repetition inside a sequence with renaming satisfies the hypotheses of C02_windows and
    C02_inside (a program is produced, all declarations inside their nodes) and reports 4 windows *)
